@@ -460,19 +460,30 @@ def stepSetDist (b : B) (r : Bool) : B × List Stmt := ({ b with rel := r, srel 
 def haltTemp (ps : List (String × Rat)) : OQ :=
   match lookupQ ps "S" with | some s => some s | none => lookupQ ps "R"
 
+/-- every S / R value a wait command carries -/
+def haltTemps (ps : List (String × Rat)) : List Rat := [lookupQ ps "S", lookupQ ps "R"].filterMap id
+
+def HaltArg.kind : HaltArg → Option BKind
+  | .waitBed => some .bed | .waitHotend => some .hotend | .waitChamber => some .chamber | _ => none
+
 def stepHalt (b : B) (m : HaltArg) (vps : VParams) : Res :=
   if m = .off ∨ m = .bogus then reject b .valueError else
   if b.toolActive then reject b .toolState else
   if b.coolActive then reject b .coolantState else
   match vps.fin? with
-  | none => reject b .valueError
+  | none => reject b .valueError               -- the statement is formatted first: NaN/±inf rejected
   | some ps =>
     let st : Stmt := { codes := [m.code], words := ps }
-    match haltTemp ps, m with
-    | some t, .waitBed => if b.bounds.okNum .bed t then accept ({ b with bed := some t }) ([st]) else reject b .valueError
-    | some t, .waitHotend => if b.bounds.okNum .hotend t then accept ({ b with hotend := some t }) ([st]) else reject b .valueError
-    | some t, .waitChamber => if b.bounds.okNum .chamber t then accept ({ b with chamber := some t }) ([st]) else reject b .valueError
-    | _, _ => accept (b) ([st])
+    match m.kind with
+    | none => accept b [st]
+    | some k =>
+      -- every temperature written is validated; the first of S, R becomes the target
+      if !(haltTemps ps).all (b.bounds.okNum k) then reject b .valueError else
+      match haltTemp ps, k with
+      | some t, .bed => accept { b with bed := some t } [st]
+      | some t, .hotend => accept { b with hotend := some t } [st]
+      | some t, .chamber => accept { b with chamber := some t } [st]
+      | _, _ => accept b [st]
 
 def stepToolOff (b : B) : B × List Stmt :=
   ({ b with power := 0, toolActive := false, spin := .off }, [{ codes := [.M05] }])
